@@ -46,6 +46,13 @@ def s_named(a, cb, klass, mod, fn, meth, other=3):
 def s_lambda_unrepresentable(a, cb, klass, mod, fn, meth, other=3):
     return 1
 
+# calls, subscripts and attributes whose VALUE is a class / function / method / module / builtin
+@icontract.require(lambda a, tbl: type(a) == str and tbl["f"] is None and tbl["k"] is None and getattr(a, "bit_length") is None and ident_fn(len) is None)
+def s_unrepresentable_results(a, tbl, other=3):
+    return 1
+def ident_fn(v):
+    return v
+
 @icontract.require(lambda a: a > 100)
 def s_args_hidden(a, *args, **kwargs):
     return 1
@@ -195,6 +202,22 @@ def main():
                 break
         if "a was 1" not in msg or "other was 3" not in msg:
             local.append({"symptom": "representable_argument_missing", "scenario": label, "detail": msg[:300]})
+    # 3b. ... also when the class / function / builtin is the RESULT of a call or a subscript inside the condition
+    for cond_src, call_kwargs in (
+            ("type(a) == str", {}), ("tbl['f'] is None", {}), ("tbl['k'] is None", {}), ("getattr(a, 'bit_length') is None", {}), ("ident_fn(len) is None", {})):
+        src2 = "import icontract\ndef ident_fn(v):\n    return v\nclass Cls2: pass\nclass Tbl(dict):\n    def __repr__(self):\n        return 'Tbl'\n@icontract.require(lambda a, tbl: {})\ndef f(a, tbl, other=3):\n    return 1\n".format(cond_src)
+        ns2 = core.load_source(src2, "c20u")
+        msg = violation_message(ns2["f"], a=1, tbl=ns2["Tbl"](f=ns2["ident_fn"], k=ns2["Cls2"]))
+        out["unrep_result:" + cond_src] = msg
+        body = msg.split("\n", 1)[-1]
+        lines_ = [ln for ln in body.split("\n")[1:] if " was " in ln and not ln.startswith("tbl was")]
+        for ln in lines_:
+            if any(b in ln for b in ("<function", "<class", "<module", "<built-in", "<bound method")):
+                local.append({"symptom": "unrepresentable_value_listed", "scenario": "result_of_call_or_subscript",
+                              "detail": "{!r} in the message for {!r}: {!r}".format(ln, cond_src, msg[:300])})
+                break
+        if "a was 1" not in msg:
+            local.append({"symptom": "representable_argument_missing", "scenario": "result_of_call_or_subscript", "detail": msg[:300]})
     # 4. _ARGS/_KWARGS only when named
     msg = violation_message(ns["s_args_hidden"], 1, 2, 3, z=4)
     out["args_hidden"] = msg
